@@ -24,7 +24,13 @@ from typing import Callable
 
 import numpy as np
 
+import os
+
 import vf.common  # noqa: F401  (selects the repository under test)
+
+# a gate matrix that fails its unitarity assertion panics inside a Rust
+# extension; formatting the backtrace costs ~0.5 s each and tells nothing
+os.environ['RUST_BACKTRACE'] = '0'
 
 HDR = 'OPENQASM 2.0;\ninclude "qelib1.inc";\n'
 TOL_RT = 1e-7        # max-abs entry difference after a text round trip
